@@ -248,6 +248,14 @@ FIXED = [
     # a bare word / number sign where a quoted or numeric group is expected
     'def e { return control weighted 1 }', 'def e { return "a" weighted 1 , treatment weighted 1 }', 'def e { return + 1 weighted 1 }', 'def e { if a == + 1 { return 1 weighted 1 } }',
     'def e { return - - 5 weighted 1 }', 'def e { if a > - - 5.0 { return 1 weighted 1 } }', 'def e { if a == ---1 { return 1 weighted 1 } }',
+    # two words of the language written as one (no rule makes a keyword of them)
+    'def e { if a notin ( 1 , 2 ) { return "x" weighted 1 } }', 
+    'def e { if a == 1 { return "x" weighted 1 } elseelse { return "y" weighted 1 } }', 'def e { returnreturn "x" weighted 1 }',
+    'def e { return "x" weightedweighted 1 }', 'defdef e { return "x" weighted 1 }', 'def e { if a isnot 1 { return "x" weighted 1 } }', 'def e { if a not_in ( 1 ) { return "x" weighted 1 } }',
+    'def e { if a NOTIN ( 1 ) { return "x" weighted 1 } }', 'def e { if a not-in ( 1 ) { return "x" weighted 1 } }',
+    # a chain that goes on after its else
+    'def e { if a == 1 { return "x" weighted 1 } else { return "y" weighted 1 } else if a == 2 { return "z" weighted 1 } }',
+    'def e { if a == 1 { return "x" weighted 1 } else if a == 3 { return "w" weighted 1 } else { return "y" weighted 1 } else { return "z" weighted 1 } }',
 ]
 
 
